@@ -28,6 +28,10 @@ Untouched(a, c) == SetState(a) = SetState(c) /\ a.final = c.final /\ a.raw = c.r
 FinOK(ev, s) == VerifyInput(s.fin, EnvOfRec(ev, s.fin.rules))
 WorldOfS(ev, s, ctx) == [sigs |-> Range(s.sigs), pre |-> Range(s.pre), env |-> EnvOfRec(ev, RulesOf(ctx))]
 
+\* outputs whose spending script is determined by the utxo and the signing key alone: nothing has
+\* to be recorded by update for the finalizer to work
+NeedsUpd(d) == d.wrap \notin {"pkh", "wpkh"}
+
 \* judgement of one finalisation attempt on input i (prev p, now n)
 JudgeFin(ev, i, p, n, mall) ==
   LET d == descs[i] IN
@@ -36,10 +40,10 @@ JudgeFin(ev, i, p, n, mall) ==
   ELSE IF n.final
   THEN /\ (FinOK(ev, n) \/ Report("C14", "finalized_with_invalid_witness", ev, i, VerifyWhy(n.fin, EnvOfRec(ev, n.fin.rules))))
        /\ ((n.sigs = <<>> /\ n.pre = <<>>) \/ Report("C14", "signer_fields_survive_finalization", ev, i, ""))
-       /\ (p.upd \/ Report("INFO", "finalized_without_update", ev, i, ""))
+       /\ (p.upd \/ ~NeedsUpd(d) \/ Report("INFO", "finalized_without_update", ev, i, ""))
   ELSE /\ (Untouched(p, n) \/ Report("C14", "failed_finalize_modified_input", ev, i, ""))
        \* completeness is C02's question: a recorded asset set that admits a witness
-       /\ (~(mall /\ p.upd /\ SatSet(d.ast, WorldOfS(ev, p, d.ctx), d.ctx) # {})
+       /\ (~(mall /\ (p.upd \/ ~NeedsUpd(d)) /\ SatSet(d.ast, WorldOfS(ev, p, d.ctx), d.ctx) # {})
            \/ Report("C02", "missed_mall_psbt", ev, i, ev.op))
 
 \* order independence: same descriptor + same set state + same mode => same outcome
@@ -65,7 +69,7 @@ PStep(ev) ==
        [] ev.op = "update" ->
             /\ others(ev.i)
             /\ (ev.res # "ok" \/ cur[ev.i].final \/
-                /\ (st[ev.i].upd \/ Report("C14", "update_recorded_nothing", ev, ev.i, ""))
+                /\ (st[ev.i].upd \/ ~NeedsUpd(descs[ev.i]) \/ Report("C14", "update_recorded_nothing", ev, ev.i, ""))
                 /\ (st[ev.i].upd_commit_ok \/ Report("C14", "update_scripts_inconsistent_with_output", ev, ev.i, ""))
                 /\ (st[ev.i].upd_origins_ok \/ Report("C14", "update_key_origins_missing", ev, ev.i, ""))
                 /\ (Range(st[ev.i].sigs) = Range(cur[ev.i].sigs) \/ Report("C14", "update_changed_signatures", ev, ev.i, "")))
